@@ -133,3 +133,60 @@ pub fn prophoto_encode<T: Num>(l: T) -> T {
 pub fn prophoto_decode<T: Num>(v: T) -> T {
     T::ite(&T::p_lt(&v, &T::k(16.0 / 512.0)), v / T::k(16.0), palette::num::Powf::powf(v, T::k(1.8)))
 }
+
+// ---- CIEDE2000: Sharma, Wu, Dalal (2005), eqs. (2)-(22), kL = kC = kH = 1 ----
+/// The case analyses (h', delta h', mean hue) are Sharma's, decided with the component type's own comparisons so that
+/// every combination of cases is a separate path of the contract program; the arithmetic is transcribed formula by
+/// formula (operand order as in the usual statement of the equations).
+pub fn ciede2000_sharma<T>(l1: T, a1: T, b1: T, l2: T, a2: T, b2: T) -> T
+where T: Num + palette::bool_mask::HasBoolMask<Mask = bool> {
+    use palette::num::{Abs, Exp, Hypot, PartialCmp, Sqrt, Trigonometry};
+    let k = |v: f64| T::k(v);
+    let rad = k(std::f64::consts::PI / 180.0);
+    let p25_7 = k(6103515625.0);
+    // (2),(3) C*ab and its mean
+    let (c1, c2) = (a1.hypot(b1), a2.hypot(b2));
+    let cb = (c1 + c2) / k(2.0);
+    let cb7 = palette::num::Powi::powi(cb, 7);
+    // (4) G
+    let g = k(0.5) * (k(1.0) - (cb7 / (cb7 + p25_7)).sqrt());
+    // (5),(6) a', C'
+    let (a1p, a2p) = (a1 * (k(1.0) + g), a2 * (k(1.0) + g));
+    let (c1p, c2p) = ((a1p * a1p + b1 * b1).sqrt(), (a2p * a2p + b2 * b2).sqrt());
+    // (7) h' in [0, 360), 0 when b = a' = 0
+    let hp = |b: T, ap: T| -> T {
+        if PartialCmp::eq(&b, &k(0.0)) && PartialCmp::eq(&ap, &k(0.0)) { return k(0.0); }
+        let r = palette::angle::RealAngle::radians_to_degrees(b.atan2(ap));
+        if PartialCmp::lt(&r, &k(0.0)) { r + k(360.0) } else { r }
+    };
+    let (h1, h2) = (hp(b1, a1p), hp(b2, a2p));
+    // (10) delta h'
+    let d = h2 - h1;
+    let achromatic = PartialCmp::eq(&c1p, &k(0.0)) || PartialCmp::eq(&c2p, &k(0.0));
+    let within = PartialCmp::lt_eq(&d.abs(), &k(180.0));
+    let dh = if achromatic { k(0.0) } else if within { d } else if PartialCmp::gt(&d, &k(180.0)) { d - k(360.0) } else { d + k(360.0) };
+    // (11) delta H'
+    let dbh = k(2.0) * (c1p * c2p).sqrt() * (dh / k(2.0) * rad).sin();
+    // (14) mean hue
+    let s = h1 + h2;
+    let hb = if achromatic { s } else if within { s / k(2.0) } else if PartialCmp::lt(&s, &k(360.0)) { (s + k(360.0)) / k(2.0) } else { (s - k(360.0)) / k(2.0) };
+    // (12),(13)
+    let lb = (l1 + l2) / k(2.0);
+    let cbp = (c1p + c2p) / k(2.0);
+    // (15) T
+    let t = k(1.0) - k(0.17) * ((hb - k(30.0)) * rad).cos() + k(0.24) * ((hb * k(2.0)) * rad).cos()
+        + k(0.32) * ((hb * k(3.0) + k(6.0)) * rad).cos() - k(0.20) * ((hb * k(4.0) - k(63.0)) * rad).cos();
+    // (16)-(21)
+    let sl = k(1.0) + ((k(0.015) * (lb - k(50.0)) * (lb - k(50.0))) / ((lb - k(50.0)) * (lb - k(50.0)) + k(20.0)).sqrt());
+    let sc = k(1.0) + k(0.045) * cbp;
+    let sh = k(1.0) + k(0.015) * cbp * t;
+    let dtheta = k(30.0) * (-(((hb - k(275.0)) / k(25.0)) * ((hb - k(275.0)) / k(25.0)))).exp();
+    let cbp7 = palette::num::Powi::powi(cbp, 7);
+    let rc = k(2.0) * (cbp7 / (cbp7 + p25_7)).sqrt();
+    let rt = -rc * (k(2.0) * dtheta * rad).sin();
+    // (22) with kL = kC = kH = 1
+    let (kl, kc, kh) = (k(1.0), k(1.0), k(1.0));
+    let (dl, dc) = (l2 - l1, c2p - c1p);
+    ((dl / (kl * sl)) * (dl / (kl * sl)) + (dc / (kc * sc)) * (dc / (kc * sc)) + (dbh / (kh * sh)) * (dbh / (kh * sh))
+        + (rt * dc * dbh) / (kc * sc * kh * sh)).sqrt()
+}
